@@ -45,6 +45,7 @@ type cell struct {
 	Cfg      string `json:"cfg"`      // ok | badCA | badKey
 	Addr     string `json:"addr"`     // exporter side: the collector is given as 127.0.0.1 ("ip") or localhost ("host")
 	SrvChain string `json:"srvChain"` // collector side: "A" | "Bbundle" (leaf from CA B + CA B's certificate in ServerCert)
+	Chain    string `json:"chain"`    // "" | "plusTrusted": the server appends a genuine trusted collector certificate to its (own) leaf
 	Valid    string `json:"valid"`    // label of the server certificate's validity period (valid | expired | justExpired | notYet | soon | endsSoon)
 	Nb       int    `json:"nb"`       // NotBefore - now and NotAfter - now in seconds, taken when the attempt starts
 	Na       int    `json:"na"`
@@ -157,8 +158,21 @@ func serverName(n string) string {
 		return "collector.verif"
 	case "mismatch":
 		return "other.verif"
+	case "ip":
+		return "127.0.0.1"
 	}
 	return ""
+}
+
+// addChain: a rogue collector presents its own leaf followed by a genuine collector certificate it does not own
+func addChain(cert *tls.Certificate, c cell) {
+	if c.Chain == "plusTrusted" {
+		genuine, err := tls.X509KeyPair(srv["trusted"].CertPEM, srv["trusted"].KeyPEM)
+		if err != nil {
+			panic(err)
+		}
+		cert.Certificate = append(cert.Certificate, genuine.Certificate...)
+	}
 }
 
 func looksIPFIX(b []byte) bool { return len(b) >= 4 && b[0] == 0 && b[1] == 10 }
@@ -228,6 +242,7 @@ func exporterCell(c cell) obs {
 		if err != nil {
 			panic(err)
 		}
+		addChain(&cert, c)
 		ln, _ := tls.Listen("tcp", "127.0.0.1:0", &tls.Config{Certificates: []tls.Certificate{cert}, MinVersion: tls.VersionTLS10, MaxVersion: tlsVersion(c.PeerMax)})
 		addr = ln.Addr().String()
 		closeSrv = func() { ln.Close() }
@@ -255,6 +270,7 @@ func exporterCell(c cell) obs {
 		if err != nil {
 			panic(err)
 		}
+		addChain(&cert, c)
 		ua, _ := net.ResolveUDPAddr("udp", "127.0.0.1:0")
 		ln, err := dtls.Listen("udp", ua, &dtls.Config{Certificates: []tls.Certificate{cert}, ExtendedMasterSecret: dtls.RequireExtendedMasterSecret,
 			ConnectContextMaker: func() (context.Context, func()) { return context.WithTimeout(context.Background(), 3*time.Second) }})
@@ -606,6 +622,14 @@ func main() {
 	for _, cc := range []string{"none", "trusted", "otherCA"} {
 		for _, pm := range []int{12, 13} {
 			cells = append(cells, cell{Side: "collector", Proto: "tls", SrvCert: "trusted", SrvName: "match", CliCert: cc, CliCA: true, PeerMax: pm, SrvChain: "Bbundle"})
+		}
+	}
+	// a leaf that does not verify, with a genuine certificate appended to the chain; ServerName as name and as IP literal
+	for _, pr := range []string{"tls", "dtls"} {
+		for _, sc := range []string{"selfSigned", "otherCA", "trusted"} {
+			for _, sn := range []string{"match", "ip"} {
+				cells = append(cells, cell{Side: "exporter", Proto: pr, SrvCert: sc, SrvName: sn, CliCert: "none", PeerMax: 12 + len(sn)%2, Chain: "plusTrusted"})
+			}
 		}
 	}
 	// the collector given by host name: the certificate must carry that name (not merely the address it resolves to)
